@@ -2009,10 +2009,11 @@ impl<'a> CompilerState<'a> {
                         local_variables.push(s);
                     }
                     self.in_scope_variables.push(map);
-                    // A definition that follows its prototype keeps the prototype's rank
-                    let order = match self.functions.get(&name) {
-                        Some(f) => f.order,
-                        None => self.functions.len(),
+                    // A definition that follows its prototype keeps the prototype's rank,
+                    // and is an interrupt handler if the prototype said so
+                    let (order, interrupt) = match self.functions.get(&name) {
+                        Some(f) => (f.order, interrupt || f.interrupt),
+                        None => (self.functions.len(), interrupt),
                     };
                     self.functions.insert(
                         name.clone(),
